@@ -469,8 +469,27 @@ fn t_prims(u: &mut Unstructured, ctx: &mut Ctx) -> CheckResult {
                     v
                 }
             };
-            if byte(u) % 8 == 0 {
-                be.insert(0, 1);
+            // long forms: the byte string of a bignum has no length limit; only its value is bounded
+            match byte(u) % 8 {
+                0 => be.insert(0, 1),
+                1 => {
+                    // a single high byte far above the 8 (or 16) least significant ones
+                    let gap = range_usize(u, 0, 40);
+                    let hi = byte(u);
+                    let mut v = vec![hi];
+                    v.extend(std::iter::repeat(0u8).take(gap));
+                    v.extend_from_slice(&be);
+                    be = v;
+                    ctx.class("prim:bignum-long");
+                }
+                2 => {
+                    // many leading zeros: still the same value
+                    let mut v = vec![0u8; range_usize(u, 5, 40)];
+                    v.extend_from_slice(&be);
+                    be = v;
+                    ctx.class("prim:bignum-long");
+                }
+                _ => {}
             }
             let val = be.iter().fold(num_bigint::BigUint::from(0u8), |acc, b| (acc << 8usize) + *b as u32);
             let want_u: Option<u64> = u64::try_from(&val).ok();
